@@ -3,6 +3,7 @@ package transactions
 import (
 	"context"
 	"errors"
+	"sync"
 	"time"
 )
 
@@ -13,7 +14,10 @@ var ErrTimeout = errors.New("transaction timeout")
 // TimedTransaction fails if Success is not called before the given timeout.
 type TimedTransaction struct {
 	*TransactionBase
-	timer *time.Timer
+	// timerMutex guards timer: the timer can fire (and Fail can call
+	// stopTimer) before NewTimedTransaction has stored it.
+	timerMutex sync.Mutex
+	timer      *time.Timer
 }
 
 // NewTimedTransaction creates a new TimedTransaction.
@@ -21,7 +25,9 @@ func NewTimedTransaction(ctx context.Context, timeout time.Duration, finally Fin
 	t := &TimedTransaction{
 		TransactionBase: NewTransactionBase(finally),
 	}
+	t.timerMutex.Lock()
 	t.timer = time.AfterFunc(timeout, func() { t.Fail(ErrTimeout) })
+	t.timerMutex.Unlock()
 	go func() {
 		select {
 		case <-ctx.Done():
@@ -46,5 +52,7 @@ func (t *TimedTransaction) Fail(e error) {
 }
 
 func (t *TimedTransaction) stopTimer() {
+	t.timerMutex.Lock()
+	defer t.timerMutex.Unlock()
 	t.timer.Stop()
 }
